@@ -23,6 +23,7 @@ type C14Case struct {
 	Jobs      [][]string `json:"jobs"`
 	Construct bool       `json:"construct"`
 	Procs     int        `json:"procs"`
+	Pattern   int        `json:"pattern"` // makes the regular expressions of the "lits" grammar and of concurrently constructed terminals fresh in this process
 }
 
 func (c *C14Case) Describe() string {
@@ -37,6 +38,7 @@ func genC14(t *rapid.T) interface{} {
 	c := &C14Case{Grammar: rapid.SampledFrom([]string{"arith", "arith", "json", "json", "lr", "lits", "generated"}).Draw(t, "grammar")}
 	c.Procs = rapid.SampledFrom([]int{2, 4, 16}).Draw(t, "procs")
 	c.Construct = rapid.Bool().Draw(t, "construct")
+	c.Pattern = rapid.IntRange(0, 1<<30).Draw(t, "pattern")
 	var o GenOpts
 	if c.Grammar == "generated" {
 		o = GenOpts{MaxNT: 3, MaxDepth: 3, Alphabet: "ab", NonMono: true, MaxInput: 6, Skeleton: true, Names: true}
@@ -97,7 +99,7 @@ func c14Parser(c *C14Case) parsley.Parser {
 	case "lits":
 		lit := combinator.Choice(terminal.Float("f"), terminal.Integer("i"), terminal.String("s", true), terminal.Char("c"),
 			terminal.TimeDuration("d"), terminal.Bool("b", "true", "false"), terminal.Nil("n", "nil"), terminal.Word("w", "foo", 1), terminal.Op("=="),
-			terminal.Regexp("r", "ID", "id", "[a-z]+", 0)).Name("literal")
+			terminal.Regexp("r", "ID", "id", freshPattern(c.Pattern), 0)).Name("literal")
 		return combinator.Sentence(combinator.Many(text.Trim(lit)).Bind(concatInterpAny()))
 	}
 	return combinator.Sentence(Build(c.G, BuildOpts{Interp: concatInterp(true)}).NT[0])
@@ -152,34 +154,22 @@ func checkC14(ci interface{}, st *Stats) error {
 		}
 	}
 	p := c14Parser(c)
-	want := map[string]string{}
-	failing := 0
-	for _, jobs := range c.Jobs {
-		for _, in := range jobs {
-			if _, ok := want[in]; !ok {
-				want[in] = runOne(p, in)
-			}
-		}
-	}
-	failingG := 0
-	for _, jobs := range c.Jobs {
-		f := false
-		for _, in := range jobs {
-			if len(want[in]) > 0 && !containsNilErr(want[in]) {
-				f = true
-				failing++
-			}
-		}
-		if f {
-			failingG++
-		}
-	}
 	if c.Procs > 0 {
 		defer runtime.GOMAXPROCS(runtime.GOMAXPROCS(c.Procs))
+	}
+	// The concurrent phase runs first, on a cold process state for this case (anything the
+	// library caches process-wide is filled while other goroutines are parsing); the sequential
+	// baseline is computed afterwards with the same shared parser graph.
+	type obs struct {
+		g     int
+		in    string
+		got   string
+		fresh bool
 	}
 	var wg sync.WaitGroup
 	start := make(chan struct{})
 	errs := make([]error, len(c.Jobs))
+	results := make([][]obs, len(c.Jobs))
 	for g, jobs := range c.Jobs {
 		wg.Add(1)
 		go func(g int, jobs []string) {
@@ -191,23 +181,21 @@ func checkC14(ci interface{}, st *Stats) error {
 			}()
 			<-start
 			for round := 0; round < 3; round++ {
-				for _, in := range jobs {
-					if got := runOne(p, in); got != want[in] {
-						errs[g] = fmt.Errorf("goroutine %d, input %q: concurrent run gives %s, alone it gives %s", g, in, got, want[in])
-						return
-					}
+				for ji, in := range jobs {
+					results[g] = append(results[g], obs{g, in, runOne(p, in), false})
 					if c.Construct {
-						switch (g + round) % 3 {
+						switch (g + round) % 4 {
 						case 0:
 							_ = arithParser()
 						case 1:
 							_ = json.NewParser()
+						case 2:
+							// a terminal with a regular expression nobody used before in this process
+							re := terminal.Regexp("r", "ID", "id", freshPattern(c.Pattern+1+g*131+round*17+ji), 0)
+							runOne(combinator.Sentence(combinator.Many(text.Trim(re)).Bind(concatInterpAny())), "ab cd")
 						default:
 							q := c14Parser(c)
-							if got := runOne(q, in); got != want[in] {
-								errs[g] = fmt.Errorf("goroutine %d, input %q: a concurrently constructed parser gives %s, want %s", g, in, got, want[in])
-								return
-							}
+							results[g] = append(results[g], obs{g, in, runOne(q, in), true})
 						}
 					}
 				}
@@ -221,6 +209,31 @@ func checkC14(ci interface{}, st *Stats) error {
 			return e
 		}
 	}
+	want := map[string]string{}
+	failingG := 0
+	for g, jobs := range c.Jobs {
+		f := false
+		for _, in := range jobs {
+			if _, ok := want[in]; !ok {
+				want[in] = runOne(p, in)
+			}
+			if !containsNilErr(want[in]) {
+				f = true
+			}
+		}
+		if f {
+			failingG++
+		}
+		for _, o := range results[g] {
+			if o.got != want[o.in] {
+				what := "the shared parser"
+				if o.fresh {
+					what = "a concurrently constructed parser"
+				}
+				return fmt.Errorf("goroutine %d, input %q: %s gave %s in the concurrent run, alone it gives %s", g, o.in, what, o.got, want[o.in])
+			}
+		}
+	}
 	st.Class("grammar " + c.Grammar)
 	st.ClassN("goroutines", len(c.Jobs))
 	if c.Construct {
@@ -231,6 +244,12 @@ func checkC14(ci interface{}, st *Stats) error {
 		st.Class(">= 2 goroutines with failing parses")
 	}
 	return nil
+}
+
+// freshPattern gives a regular expression (matching lower-case words) whose text is very
+// likely new to the process.
+func freshPattern(n int) string {
+	return fmt.Sprintf("[a-z]+(?:#x{%d}y{%d})?", n%1000+1, (n/1000)%1000+1)
 }
 
 func containsNilErr(s string) bool {
